@@ -947,6 +947,7 @@ func runC16(c *Ctx, tier string) {
 	runC16S3(c)
 	runC16B1(c)
 	runSeekIndexMaxMeaning(c, "C16-B2")
+	runSeekRangeMerge(c, "C16-R1")
 	checkNullsMax(c, "C16-N1")
 }
 
